@@ -53,8 +53,11 @@ def getStack (j : Json) : Except String Stack := do
   let ps ← getRatList j "ps"
   match iop, ps with
   | [a, b, c, d, e, f], [p, q] =>
+    let chan ← match j.getObjVal? "chan" with
+      | .ok (.arr _) => getNatList j "chan"
+      | _ => pure []
     pure { rowCos := ⟨a, b, c⟩, colCos := ⟨d, e, f⟩, psRow := p, psCol := q, hint := ← getOptRat j "hint",
-           pos := ← getV3List j "pos" }
+           pos := ← getV3List j "pos", chan := chan }
   | _, _ => throw "iop of 6 and ps of 2 expected"
 
 def sortV3 (l : List V3) : List V3 :=
@@ -92,6 +95,24 @@ def handlers : List (String × Handler) := [
         ("ps", ratsToJson [t.psRow, t.psCol]),
         ("sbs", match t.sbs with | some h => ratToJson h | none => Json.null)]))
     | _, _ => throw "d of 3 vectors and s of 3 expected"),
+  ("volumeGeometrySingle", fun j => do
+    let iop ← getRatList j "iop"
+    let ps ← getRatList j "ps"
+    match iop, ps with
+    | [a, b, c, d, e, f], [p, q] =>
+      let r := volumeGeometrySingle (← getV3 j "pos") ⟨a, b, c⟩ ⟨d, e, f⟩ p q (← getOptRat j "hint")
+      pure (exceptToJson affToJson r)
+    | _, _ => throw "iop of 6 and ps of 2 expected"),
+  ("volumePositions", fun j => do
+    let iop ← getRatList j "iop"
+    match iop with
+    | [a, b, c, d, e, f] =>
+      let r := volumePositions (← getV3List j "pos") ⟨a, b, c⟩ ⟨d, e, f⟩ (← getOptRat j "hint") (← getBool j "allow_missing")
+        (← getBool j "allow_dup")
+      pure (exceptToJson (fun (o : Option (Rat × List Int)) => match o with
+        | none => Json.null
+        | some (sp, vps) => Json.mkObj [("spacing", ratToJson sp), ("positions", intsToJson vps)]) r)
+    | _ => throw "iop of 6 expected"),
   ("recordedTiledOrigin", fun j => do
     let r := recordedTiledOrigin (← getV3 j "user") (← getV3 j "src") (← getBool j "same_orientation")
       (← getBool j "same_spacing") (← getBool j "same_tiles")
